@@ -732,6 +732,10 @@ class Interp:
         return any(self._eq(x, item) for x in container)
 
     def _compare(self, op: ast.cmpop, a: Any, b: Any) -> bool:
+        if isinstance(op, (ast.Is, ast.IsNot, ast.Eq, ast.NotEq)):
+            # a builtin type named in the source (`str`) and the type of a native value (`type(x)`) are the same object
+            a = NATIVE_TYPES.get(a.name.split(".")[-1], a) if isinstance(a, ExtRef) and a.name.startswith("builtins.") else a
+            b = NATIVE_TYPES.get(b.name.split(".")[-1], b) if isinstance(b, ExtRef) and b.name.startswith("builtins.") else b
         if isinstance(op, ast.Is):
             return a is b or (isinstance(a, Sym) and isinstance(b, Sym) and a == b) or (
                 isinstance(a, (bool, type(None))) and isinstance(b, (bool, type(None))) and a is b)
